@@ -401,8 +401,9 @@ class Reach:
     walked list.  Loop bodies are entered under the condition of the loop
     statement (the 'iterates at least once' fact is not an atom)."""
 
-    def __init__(self, fn, visit, use_env=True):
+    def __init__(self, fn, visit, use_env=True, merge_values=False):
         self.visit = visit
+        self.merge_values = merge_values
         self.mutated = mutated_names(fn) if fn is not None else set()
         self.use_env = use_env
         # names that may already hold a value at the current point of the walk
@@ -502,6 +503,9 @@ class Reach:
                                 ast.BoolOp(op=ast.And(), values=[clone(test_ast), clone(v1)]),
                                 ast.BoolOp(op=ast.And(), values=[ast.UnaryOp(op=ast.Not(), operand=clone(test_ast)), clone(v2)])])
                             env[k] = ast.fix_missing_locations(merged)
+                        elif self.merge_values and k not in names_in(test_ast):
+                            # any value: the name holds `v1 if test else v2` after the join (see value_table)
+                            env[k] = ast.fix_missing_locations(ast.IfExp(test=clone(test_ast), body=clone(v1), orelse=clone(v2)))
                 if repr(c1) == repr(AND(cond, t)) and repr(c2) == repr(AND(cond, NOT(t))):
                     pass  # both arms fall through: the condition is unchanged
                 else:
@@ -572,6 +576,35 @@ def reaching(fn, stmts, is_sink, env=None, cond=True):
             found.append((st, c, dict(e)))
     Reach(fn, visit).walk(stmts, cond, dict(env or {}))
     return found
+
+
+def value_table(fn, name, is_sink, stmts=None, env=None):
+    """What the local `name` holds when control reaches the (single) statement satisfying is_sink, as a decision table
+    [(condition formula, value text)], whichever way the choice is spelled: if/elif/else assigning in every arm, a default
+    followed by overriding ifs, a conditional expression, or a chain of those.  None when the sink is not found exactly once
+    or the name has no tracked value there."""
+    found = []
+
+    def visit(st, c, e):
+        if is_sink(st):
+            found.append((st, c, dict(e)))
+    Reach(fn, visit, merge_values=True).walk(fn.body if stmts is None else stmts, True, dict(env or {}))
+    if len(found) != 1 or name not in found[0][2]:
+        return None
+    rows = []
+
+    def flatten(expr, cond):
+        if isinstance(expr, ast.IfExp):
+            t = to_formula(expr.test)
+            flatten(expr.body, AND(cond, t))
+            flatten(expr.orelse, AND(cond, NOT(t)))
+        else:
+            rows.append((cond, ast.unparse(expr)))
+    flatten(found[0][2][name], True)
+    merged = {}
+    for cond, text in rows:
+        merged[text] = OR(merged[text], cond) if text in merged else cond
+    return sorted(merged.items(), key=lambda kv: kv[0]) and [(c, t) for t, c in merged.items()]
 
 
 def fallthrough(fn, stmts, env=None):
